@@ -146,6 +146,31 @@ def r18_1b(rep, prog):
             rep.holds('R18.1b', inst, where, 'return under %s' % [T.show_atom(a) for a in facts][:3])
         else:
             rep.violated('R18.1b', inst, where, 'return not guarded by min_diff >= 0 (facts: %s)' % [T.show_atom(a) for a in facts][:4], key='stabilize-early-return')
+    # the spacing scan covers every pair: with the order bound to 10 / 16 the
+    # scan index has run over 1..L-1 when the last element is examined
+    for Lval in (10, 16):
+        anL = _an(prog, f, entry_state={('param', L): absint.const(Lval)})
+        lids = [l['id'] for l in f.locals.values() if l['name'] == 'i']
+        hit = None
+        for b, i, s_ in anL.cf.positions():
+            if sx.kind(s_) == 'assign' and sx.kind(s_[1]) == 'local' and any(_nd(x, D, lambda q: sx.key(q) == ('param', L)) for x in sx.walk(s_[2])) \
+                    and any(sx.int_val(x) == 32768 for x in sx.walk(s_[2])) and not any(m[0] == 'call' for m in sx.walk(s_[2])):
+                st_ = anL.state_at(b, i)
+                hit = (b, i, s_, st_)
+                break
+        inst = '%s:silk_NLSF_stabilize spacing scan covers coefficients 1..L-1 (order %d)' % (prog.config, Lval)
+        if hit is None or hit[3] is None or len(lids) != 1:
+            rep.unresolved('R18.1b', 'last-element spacing test not found in silk_NLSF_stabilize', f.where())
+            break
+        iv = hit[3].get(('local', lids[0]))
+        where = '%s:%s' % (f.file, sx.line(hit[2]))
+        # first index examined by the loop
+        ds, defs = cfgm.defs_at(anL.cf, lids[0], hit[0], hit[1])
+        if iv is not None and absint.lo(iv) == absint.hi(iv) == Lval:
+            rep.holds('R18.1b', inst, where, 'scan index = %d when the last element is tested' % Lval)
+        else:
+            rep.violated('R18.1b', inst, where, 'scan index is %s (expected %d) when the last element is tested: the spacing between the top coefficients is never examined, so the early return can fire on an unordered vector' %
+                         (absint.show(iv) if iv is not None else 'unknown', Lval), key='stabilize-scan-range')
     # fallback branch: loops == MAX_LOOPS always true at the loop exit
     fb = None
     for b in cf.blocks:
